@@ -36,7 +36,7 @@ CLAIMED = {
          "DESIGN.md section 4, C11"),
  "C12": ("property-based testing (proptest): generated stacks of 0-15 user dictionaries with overlapping / plugin-registered parts of speech, checked against the generating model and against the same system dictionary loaded alone",
          "Exploration: every row of every layered dictionary must report the POS strings of its CSV row and split references resolved to the model's rows of the same user dictionary or the system one; every morpheme's dictionary id / word number must name a row whose key is its surface; OOV morphemes report -1 and a configured POS; every declared POS is retrievable; all observations on system words are identical with and without user dictionaries; a 15th user dictionary must be refused with an error. No absence claim.",
-         "User dictionaries are compiled against the bare system dictionary, the only way callers do it. No input-text plugin is configured so that key == surface.",
+         "User dictionaries are compiled against the bare system dictionary or (30 % of the cases) against the loaded dictionary with its plugins set up, the `ubuild` flow (fixed finding F22). No input-text plugin is configured so that key == surface.",
          "DESIGN.md section 4, C12"),
  "C13": ("property-based testing (proptest): generated char.def / unk.def / provider orders against a reference candidate enumerator; provider-level (public trait) and lattice-level (verif hook) set comparison",
          "Exploration: for generated class definitions (multi-class characters, ALL, NOOOVBOW/2), invoke/group/length flags, unk.def lines, provider orders (MeCab, Regex strict/relaxed with maxLength, Simple) and texts (also runs beyond 64 characters) each provider's candidates at every offset with empty / non-empty created-length sets, and the lattice's node sets at every boundary, must equal the reference built from the left-to-right class runs, the created-lengths rule, the NOOOVBOW skip and the fallback re-invocation; OOV morphemes must report is_oov, dictionary -1, a configured POS and the normalised slice as forms. No absence claim.",
@@ -88,6 +88,18 @@ CLAIMED = {
          "DESIGN.md section 4, C01"),
 }
 PENDING = {}
+# constructed families (Property::extra) per property, see DESIGN.md 3.4b
+FAMILIES = {
+ "C01": "inputs of 49,140-49,160 bytes, normalised lengths of 65,520-65,560 bytes",
+ "C02": "periodic workloads on one tokenizer that revisit a boundary after exactly 2^16 / 2^17 lattice positions",
+ "C03": "inputs of 49,140-49,160 bytes, normalised lengths of 65,520-65,560 bytes, expanders before shrinkers",
+ "C04": "a > 10,000-id dictionary and a double-array trie beyond 2^21 units",
+ "C06": "255-65,537 distinct parts of speech, 63-257 homographs of one key, matrices of 181x181 to 300x300 cells",
+ "C10": "16 (thorough 64) marathon histories of 2,500+ (10,000+) operations and the periodic workloads of C02",
+ "C14": "digit, digit-group and katakana runs of 255-49,149 bytes merged into one token",
+ "C15": "numerals of 255-49,000 digits with and without fraction, up to 10,000 comma groups",
+ "C19": "Python texts of 49,147-49,152 bytes; CLI files whose line end falls on a multiple of the 8 KiB read block",
+}
 
 def main():
     props = [json.loads(l) for l in open(os.path.join(ROOT, "properties.jsonl"))]
@@ -101,6 +113,10 @@ def main():
         if i not in CLAIMED:
             continue
         tech, text, note, ref = CLAIMED[i]
+        if i not in ("C18", "C19"):
+            tech += "; thorough tier adds libFuzzer (cargo-fuzz, AddressSanitizer) campaigns that run the same oracle in-target" + (" on a byte-level target and" if i in ("C03", "C06", "C07", "C16", "C17") else "") + " on the property's own generated cases"
+        if i in FAMILIES:
+            text = text.replace(" No absence claim.", "") + " Constructed families at the documented sizes and limits (" + FAMILIES[i] + ") run through the same oracle in every tier. No absence claim."
         checks.append({
             "property_id": i,
             "quick_cmd": f"./check {i} quick",
